@@ -57,7 +57,9 @@ theorem step_nodup (t : Tree) (op : Op) (hn : t.uids.Nodup) : (step t op).1.uids
         intro x hx
         simp only [uids_node, uidsL_nil, List.mem_singleton] at hx
         subst hx
-        simpa using hfresh
+        have hf' := hfresh
+        simp only [Bool.or_eq_true, not_or] at hf'
+        simpa using hf'.1
   | setAttr u k v =>
     simp only [step]; split
     · rw [update_uids]
@@ -94,6 +96,8 @@ theorem step_nodup (t : Tree) (op : Op) (hn : t.uids.Nodup) : (step t op).1.uids
     | none => exact hn
     | some s =>
       simp only
+      split
+      · exact hn
       split
       · exact hn
       · rw [update_uids]
